@@ -129,9 +129,13 @@ pub fn eval(n: &Node, at: C) -> R {
                     RV::Val(v, q_mul(aq, a.norm(), cq, c.norm(), v.norm()))
                 }
                 BinOp::Div => {
-                    let v = a / c;
+                    let v = div_scaled(a, c);
                     if !finite(v) || !finite(a) || !finite(c) {
                         return RV::Unspec("U3: non-finite complex quotient");
+                    }
+                    let tiny = |z: C| z.norm() < 1e-300 && z.norm() > 0.0;
+                    if c.re.abs().max(c.im.abs()) > 1e300 || tiny(v) || tiny(a) || tiny(c) {
+                        return RV::Unspec("U3: complex quotient at the ends of the exponent range");
                     }
                     let q = match q_div(aq, a.norm(), cq, c.norm(), v.norm()) {
                         Q::Exact => Q::Tol(1e-12 * v.norm()),
@@ -207,27 +211,39 @@ pub fn eval(n: &Node, at: C) -> R {
                 Exp2 => approx(q, (z * std::f64::consts::LN_2).exp()),
                 Sin => approx(q, z.sin()),
                 Cos => approx(q, z.cos()),
-                Tan => approx(q, z.tan()),
+                Tan => approx(q, {
+                    let w = tanh_acc(C::new(-z.im, z.re));
+                    C::new(w.im, -w.re)
+                }),
                 Sinh => approx(q, z.sinh()),
                 Cosh => approx(q, z.cosh()),
-                Tanh => approx(q, z.tanh()),
+                Tanh => approx(q, tanh_acc(z)),
                 Asin | Acos => {
                     if near_real_beyond(z, |x| x.abs() >= 1.0 - 1e-6) {
                         return RV::Unspec("U3: asin/acos on a branch cut");
                     }
-                    approx(q, if *f == Asin { z.asin() } else { z.acos() })
+                    approx(
+                        q,
+                        if *f == Asin {
+                            // asin(z) = -i asinh(iz)
+                            let w = asinh_acc(C::new(-z.im, z.re));
+                            C::new(w.im, -w.re)
+                        } else {
+                            z.acos()
+                        },
+                    )
                 }
                 Atan => {
                     if near_imag_beyond(z, |y| y.abs() >= 1.0 - 1e-6) {
                         return RV::Unspec("U3: atan on a branch cut");
                     }
-                    approx(q, z.atan())
+                    approx(q, if z.norm() < 1e-8 { z } else { z.atan() })
                 }
                 Asinh => {
                     if near_imag_beyond(z, |y| y.abs() >= 1.0 - 1e-6) {
                         return RV::Unspec("U3: asinh on a branch cut");
                     }
-                    approx(q, z.asinh())
+                    approx(q, asinh_acc(z))
                 }
                 Acosh => {
                     if near_real_beyond(z, |x| x <= 1.0 + 1e-6) {
@@ -239,12 +255,52 @@ pub fn eval(n: &Node, at: C) -> R {
                     if near_real_beyond(z, |x| x.abs() >= 1.0 - 1e-6) {
                         return RV::Unspec("U3: atanh on a branch cut");
                     }
-                    approx(q, z.atanh())
+                    approx(q, if z.norm() < 1e-8 { z } else { z.atanh() })
                 }
                 _ => RV::Unspec("not complex"),
             }
         }
     }
+}
+
+/// asinh away from the library's weak spots: f(z) = z below 1e-8, odd symmetry for Re z < 0 (the library's
+/// ln(z + sqrt(z^2 + 1)) cancels there), ln(2z) beyond 1e150
+fn asinh_acc(z: C) -> C {
+    if z.re < 0.0 {
+        return -asinh_acc(-z);
+    }
+    let n = z.norm();
+    if n < 1e-8 {
+        z
+    } else if n > 1e150 {
+        z.ln() + std::f64::consts::LN_2
+    } else {
+        z.asinh()
+    }
+}
+
+/// tanh(x + iy) from the real tanh, tan and cosh (no overflow for large |x|, no 0/0 next to the poles)
+fn tanh_acc(z: C) -> C {
+    let h = z.re.tanh();
+    let t = z.im.tan();
+    let c = z.re.cosh();
+    let d = 1.0 + h * h * t * t;
+    C::new(h * (1.0 + t * t) / d, t / (c * c) / d)
+}
+
+/// a / c with both operands scaled by a power of two first, so that |c|^2 neither overflows nor underflows
+fn div_scaled(a: C, c: C) -> C {
+    let m = c.re.abs().max(c.im.abs());
+    if m == 0.0 || !m.is_finite() {
+        return a / c;
+    }
+    // exact scaling by 2^-e with 2^e <= m < 2^(e+1), applied in two steps to stay inside the exponent range
+    let e = m.log2().floor() as i32;
+    let (h1, h2) = (e / 2, e - e / 2);
+    let s = |x: f64| x * 2f64.powi(-h1) * 2f64.powi(-h2);
+    let cs = C::new(s(c.re), s(c.im));
+    let q = a / cs;
+    C::new(s(q.re), s(q.im))
 }
 
 fn pow(a: C, b: C, q: Q) -> R {
